@@ -2,6 +2,7 @@ package main
 
 import (
 	"fmt"
+	"math/big"
 	"go/constant"
 	"go/token"
 	"go/types"
@@ -114,6 +115,13 @@ func (fr *frame) binop(op token.Token, xt, yt types.Type, x, y Value) Value {
 			isZero := Eq(b, BVU(b.S.W, 0))
 			if fr.p.branch(isZero) {
 				panic(&goPanic{kind: "div0", msg: "integer divide by zero"})
+			}
+			if !signed && b.IsConst() && !a.IsConst() && a.S.W >= 24 && !fr.p.concreteMode && !fr.p.noDivAxiom {
+				q, r := fr.p.divByConst(a, b)
+				if op == token.QUO {
+					return q
+				}
+				return r
 			}
 			if op == token.QUO {
 				if signed {
@@ -503,3 +511,27 @@ func (p *Path) rangeIter(x Value, t types.Type) Value {
 }
 
 var _ = math.MaxInt64
+
+// divByConst axiomatises unsigned x / c and x % c for a non-zero constant c
+// with a fresh q: q <= max/c (so q*c cannot wrap), q*c <= x, x - q*c < c;
+// the remainder is the term x - q*c. In the naturals q*c <= x < q*c + c, so q
+// is uniquely floor(x/c): adding the definition to the path condition never
+// restricts the inputs; it spares the solver a divider circuit (constant
+// multiplication is shift-and-add).
+func (p *Path) divByConst(x, c *Term) (*Term, *Term) {
+	key := fmt.Sprintf("div:%d:%s", x.id, c.C.String())
+	if v, ok := p.store[key]; ok {
+		qr := v.([2]*Term)
+		return qr[0], qr[1]
+	}
+	w := x.S.W
+	q := p.freshVar("q", SBV(w))
+	maxQ := BVC(w, new(big.Int).Quo(mask(w), c.C))
+	qc := BVMul(q, c)
+	r := BVSub(x, qc)
+	p.assume(BVUle(q, maxQ))
+	p.assume(BVUle(qc, x))
+	p.assume(BVUlt(r, c))
+	p.store[key] = [2]*Term{q, r}
+	return q, r
+}
